@@ -18,7 +18,7 @@ pub struct C05 {
 }
 
 pub fn profile(big: bool) -> Profile {
-    Profile { max_ops: if big { 60 } else { 25 }, big_keys: big, max_insert_rows: if big { 12 } else { 4 }, truncate: 1, ..Profile::default() }
+    Profile { max_ops: if big { 60 } else { 25 }, big_keys: big, max_insert_rows: if big { 12 } else { 4 }, truncate: 1, prefill: big, ..Profile::default() }
 }
 
 #[derive(Debug, Clone, serde::Serialize, serde::Deserialize)]
